@@ -75,6 +75,25 @@ func c13Universe(slots []slot) *ExecUniverse {
 			}
 		}
 	}
+	// an operand that yields one number and then fails on a later item (with the
+	// error suppressed the operation must fail too, not use the partial result)
+	negAll := []wire.Node{{K: "un", Op: "minus", X: all}}
+	keyA := []wire.Node{{K: "root"}, {K: "anyarr"}, {K: "key", S: wire.Bytes("a")}}
+	zero, seven := wire.Int(0), wire.Int(7)
+	idx07 := []wire.Node{{K: "root"}, {K: "idx", Subs: []wire.Sub{{From: []wire.Node{{K: "num", V: &zero}}}, {From: []wire.Node{{K: "num", V: &seven}}}}}}
+	for _, doc := range []wire.Value{wire.Arr(wire.Float(1), wire.StrV("a")), wire.Arr(wire.StrV("a"), wire.Float(1)), wire.Arr(wire.Float(41)),
+		wire.Arr(wire.Obj("a", wire.Float(4)), wire.Obj("b", wire.Float(2))), wire.Arr(wire.Obj("b", wire.Float(2)), wire.Obj("a", wire.Float(4)))} {
+		for _, lax := range []bool{true, false} {
+			for _, opnd := range [][]wire.Node{negAll, keyA, idx07} {
+				for _, op := range []string{"add", "mul", "div"} {
+					u.addCase(wire.Path{Lax: lax, Chain: []wire.Node{{K: "bin", Op: op, L: opnd, R: lit1}}}, doc, nil)
+					u.addCase(wire.Path{Lax: lax, Chain: []wire.Node{{K: "bin", Op: op, L: lit1, R: opnd}}}, doc, nil)
+					cond := wire.Node{K: "bin", Op: "eq", L: []wire.Node{{K: "bin", Op: op, L: opnd, R: lit1}}, R: lit1}
+					u.addCase(wire.Path{Lax: lax, Chain: []wire.Node{{K: "root"}, {K: "filter", P: &cond}}}, doc, nil)
+				}
+			}
+		}
+	}
 	// unary operators over several items, followed by a filter or method that
 	// rejects / accepts items at different positions
 	two := wire.Int(-2)
